@@ -175,7 +175,10 @@ InsertBad(e) ==
            ELSE {C5("insert_ made an unrelated tuple appear")})
           \cup (IF Unchanged(P, O, {r}, {}) THEN {} ELSE {C5("insert_ changed unrelated state")})
      ELSE (IF O.tup[r] = P.tup[r] \cup {ct} THEN {} ELSE {C5("inserted tuple not reported exactly (iterator)")})
-          \cup (IF NoDupSeq(e.st.tup[r]) THEN {} ELSE {C5("inserted tuple reported twice")})
+          \* the property speaks about the tuple that was passed to insert_: it is reported once (a duplicate of
+          \* some other tuple is C04's business, checked at observation points and returns)
+          \cup (IF Cardinality({i \in DOMAIN e.st.tup[r] : e.st.tup[r][i] = ct}) <= 1 THEN {}
+                ELSE {C5("inserted tuple reported twice")})
           \cup { C5(w) : w \in QueriesBad(e.st, {r}) }
           \cup (IF Unchanged(P, O, {r}, {}) THEN {} ELSE {C5("insert_ changed unrelated state")})
 
